@@ -84,6 +84,12 @@ func cmdRand(o *Out, p *Package, j Job) {
 		fn := reflect.ValueOf(p.Funcs[name])
 		rt := fn.Type().Out(0)
 		calls := j.N
+		if reachesEnumWithoutExportedConstant(u, rt, map[reflect.Type]bool{}) {
+			// no value of such a type can be well-formed in the sense of the property
+			// (an enum component must equal an exported constant): outside its domain
+			o.Count("rand-functions-outside-domain:enum-without-exported-constant", 1)
+			continue
+		}
 		canVary := varies(u, rt, map[reflect.Type]bool{})
 		if canVary && smallDomain(u, rt) {
 			calls = 64 // small domains: make a constant generator the only way to fail
@@ -138,7 +144,11 @@ func cmdRand(o *Out, p *Package, j Job) {
 			// from the analysed file) or which need none
 			fp, _ := json.Marshal(fmt.Sprintf("%#v", out.Interface()))
 			distinct[hash(fp)] = true
-			if rt.Kind() != reflect.Interface && rt.Name() != "" && (!u.ReachesUnion(rt) || (reachable[rt] && j.Opts["no-wrappers"] != "1")) {
+			if hasNilUnion(u, out) {
+				// only possible below a skipped (gomacro-data:"ignore" / unexported) field, wellFormed
+				// has passed: the round trip of C02 is stated for member values only
+				o.Count("rand-round-trips-skipped:nil-union-below-skipped-field", 1)
+			} else if rt.Kind() != reflect.Interface && rt.Name() != "" && (!u.ReachesUnion(rt) || (reachable[rt] && j.Opts["no-wrappers"] != "1")) {
 				if _, ok := checkJSONValue(o, p, u, rt, out, u.ReachesUnion(rt), false, nil, "rand-"); !ok {
 					break
 				}
@@ -153,6 +163,86 @@ func cmdRand(o *Out, p *Package, j Job) {
 			o.Sample(p.ID, map[string]any{"function": name, "type": rt.String(), "calls": calls, "distinct_values": len(distinct)})
 		}
 	}
+}
+
+// reachesEnumWithoutExportedConstant reports whether a generated value of type t
+// contains (outside skipped fields) a component of an enum type that has no exported constant.
+func reachesEnumWithoutExportedConstant(u *refwire.Universe, t reflect.Type, seen map[reflect.Type]bool) bool {
+	if seen[t] {
+		return false
+	}
+	seen[t] = true
+	if _, ok := u.EnumAll[t]; ok {
+		return len(u.EnumExported[t]) == 0
+	}
+	if refwire.IsTimeLike(t) {
+		return false
+	}
+	switch t.Kind() {
+	case reflect.Slice, reflect.Array, reflect.Pointer:
+		return reachesEnumWithoutExportedConstant(u, t.Elem(), seen)
+	case reflect.Map:
+		return reachesEnumWithoutExportedConstant(u, t.Key(), seen) || reachesEnumWithoutExportedConstant(u, t.Elem(), seen)
+	case reflect.Struct:
+		for i := 0; i < t.NumField(); i++ {
+			f := t.Field(i)
+			if (!f.IsExported() && !f.Anonymous) || f.Tag.Get("gomacro-data") == "ignore" {
+				continue
+			}
+			if reachesEnumWithoutExportedConstant(u, f.Type, seen) {
+				return true
+			}
+		}
+	case reflect.Interface:
+		for _, m := range u.Unions[t] {
+			if reachesEnumWithoutExportedConstant(u, m, seen) {
+				return true
+			}
+		}
+	}
+	return false
+}
+
+// hasNilUnion reports whether v contains a nil component of a union type.
+func hasNilUnion(u *refwire.Universe, v reflect.Value) bool {
+	t := v.Type()
+	if refwire.IsTimeLike(t) {
+		return false
+	}
+	switch t.Kind() {
+	case reflect.Interface:
+		if _, isUnion := u.Unions[t]; !isUnion {
+			return false
+		}
+		if v.IsNil() {
+			return true
+		}
+		return hasNilUnion(u, v.Elem())
+	case reflect.Struct:
+		for i := 0; i < t.NumField(); i++ {
+			if hasNilUnion(u, v.Field(i)) {
+				return true
+			}
+		}
+	case reflect.Slice, reflect.Array:
+		for i := 0; i < v.Len(); i++ {
+			if hasNilUnion(u, v.Index(i)) {
+				return true
+			}
+		}
+	case reflect.Map:
+		it := v.MapRange()
+		for it.Next() {
+			if hasNilUnion(u, it.Key()) || hasNilUnion(u, it.Value()) {
+				return true
+			}
+		}
+	case reflect.Pointer:
+		if !v.IsNil() {
+			return hasNilUnion(u, v.Elem())
+		}
+	}
+	return false
 }
 
 func classOf(msg string) string {
